@@ -4,7 +4,11 @@
 # exit 0 on the clean tree. Prints one line per patch.
 cd "$(dirname "$0")/.."
 fail=0
+# REGRESS_PART=i/n runs every n-th patch starting with the i-th (1-based), so that parts can run side by side
+part_i=${REGRESS_PART%%/*}; part_n=${REGRESS_PART##*/}; [ -n "${REGRESS_PART:-}" ] || { part_i=1; part_n=1; }
+k=0
 for p in mutants/*.patch seeded/*/patch.diff; do
+  k=$((k+1)); [ $(( (k - part_i) % part_n )) -eq 0 ] || continue
   case "$p" in mutants/*) id=$(basename "$p" | cut -c1-3);; *) id=$(basename "$(dirname "$p")" | cut -c1-3);; esac
   [ "$(basename $p)" = "C18-m3-racy-latch.patch" ] && extra="VERIF_MIRI=1 VERIF_MIRI_SEEDS=8" || extra=""
   out=$(env $extra VERIF_MIN_REPLAYS=${REGRESS_MIN_REPLAYS:-0} VERIF_SCALE=${REGRESS_SCALE:-1} tools/mutant_wt.sh "$p" "$id" 2>&1 | tail -1)
@@ -12,6 +16,7 @@ for p in mutants/*.patch seeded/*/patch.diff; do
 done
 # changes the properties allow (legit/<ID>-*.diff): the check of <ID> must stay quiet (exit 0) on each
 for p in legit/*.diff; do
+  k=$((k+1)); [ $(( (k - part_i) % part_n )) -eq 0 ] || continue
   id=$(basename "$p" | cut -c1-3)
   out=$(VERIF_MIN_REPLAYS=0 VERIF_SCALE=${REGRESS_SCALE:-1} tools/mutant_wt.sh "$p" "$id" 2>&1 | tail -1)
   case "$out" in *rc=0) echo "quiet   $p";; *) echo "ALARM   $p ($out)"; fail=1;; esac
